@@ -1,5 +1,7 @@
+import LyModel.Props.C07
 import LyModel.Valid.ValApply
 import LyModel.Valid.LemmasValdiff
+import LyModel.Valid.LemmasValdiffFresh
 /-!
 # C07 `valdiff_exact` — the change set a validation returns, applied to the input tree, gives the validated tree
 
@@ -156,12 +158,60 @@ theorem valdiff_exact_partial_validated (X : SchemaX) (o : VOpts) (fx : Diff.Fix
   obtain ⟨a, _, c⟩ := valdiffExact_of_unchanged X o fx _ h1 h2 hv
   exact ⟨a, c⟩
 
+/-! ## the true part that is proved: non-empty change sets -/
+
+/-- **`valdiff_exact` for one call of `lyd_new_implicit`** (one sibling level at the top of the tree, every schema — choices, cases,
+default cases in any nesting —, every variant of the code, every option set; `sibs` arbitrary): the change set `lyd_val_diff_add`
+collects over the call (`valDiff`: every created node copied, tagged `create`, merged with `lyd_diff_merge_all` into the diff so
+far) is defined, has one node per created node, and `lyd_diff_apply_all` of it on the siblings the call GOT gives the siblings it
+handed BACK (up to `obsL`).  Hypotheses, all decidable: the table rows of the schema nodes below `ks` are their statement records
+and no leaf-list has two equal defaults (`OkBelowL`, `okBelowL_of_B`); no created node is user-ordered.
+The proof: the change log is exact (`implL_tr`: the result is the input with the recorded nodes linked one by one, and no created
+node is what `lyd_diff_find_match` takes for an earlier one, so every merge ADDS a node); the diff is the event list sorted by
+schema node; `lyd_insert_node` of different schema nodes commute (`insertNode_comm`), so applying in schema order what happened in
+event order gives the same siblings (`foldl_insertNode_sortIns`). -/
+theorem implicit_valdiff_exact (X : SchemaX) (o : VOpts) (fx : Diff.Fixes) (cx : Cx) (ks : List STree) (sibs : List DNode)
+    (hanc : cx.anc = []) (hok : OkBelowL X.base ks)
+    (hno : ∀ e ∈ (implL X o cx ks sibs).2.evs, X.base.isUserOrd e.node.sid = false) :
+    ∃ D r, valDiff X.base (implL X o cx ks sibs).2.evs = some D ∧ Diff.apply X.base sibs D fx = .ok r ∧
+      obsL X.base r = obsL X.base (implL X o cx ks sibs).1 ∧ D.length = (implL X o cx ks sibs).2.evs.length :=
+  implL_valdiff X o fx cx ks sibs sibs hanc hok hno rfl
+
+/-- non-vacuity (schema `Sc` of Props/C07.lean: nested choices with default cases): on the top-level siblings `[x]` the call creates
+`u` (nested default case) and `da` of case `a` and the container `n` — three events, none user-ordered -/
+example : okBelowB Xc = true ∧ (implL Xc {} {} Xc.top [.term 2 { new := true } [] [49]]).2.evs.map (·.node.sid) = [5, 8, 11] ∧
+    (implL Xc {} {} Xc.top [.term 2 { new := true } [] [49]]).1.map (·.sid) = [2, 5, 8, 11] := by
+  refine ⟨by decide +kernel, by decide +kernel, by decide +kernel⟩
+
+/-- **`valdiff_exact_partial` on freshly built / parsed explicit data** — every schema of the model (containers, lists, choices and
+cases in any nesting), every variant of the code, every option set, every tree `t` of ANY depth in which every node carries
+`LYD_NEW` and none `LYD_DEFAULT` (`freshExplL`: what `lyd_new_*` and the parsers leave, as long as no non-presence container is
+empty) and is accepted by the validation (`errs = []`), when **every recorded change is made on the top level**, on nodes that are
+not user-ordered (`topOnly`; decidable; e.g. a module whose defaults sit in top-level leaves, leaf-lists, choices and cases):
+`lyd_diff_apply_all t (validateDiff t) = validate t`, literally (`valdiffExact`), the change set has exactly one node per recorded
+change, and — by the lemmas of the proof — below the top level, where nothing is recorded, nothing changed (`subtreeNode_fresh`),
+`lyd_validate_new` deleted nothing (`validateNew_fresh`) and `lyd_validate_final_r` only set flags (`finalR_obs`).
+(Changes BELOW the top level — chains of copied parents merged into one diff tree — are the OPEN part.) -/
+theorem valdiff_exact_partial_fresh (X : SchemaX) (o : VOpts) (fx : Diff.Fixes) (t : List DNode)
+    (hok : OkBelowL X.base X.top) (hf : freshExplL t = true) (htop : topOnly X o t = true)
+    (hv : (validate X o t).errs = []) (hpe : (o.present && t.isEmpty) = false) :
+    valdiffExact X o fx t = true ∧ ∃ D, validateDiff X o t = some D ∧ D.length = (validate X o t).evs.length :=
+  valdiff_fresh_top X o fx t hok hf htop hv hpe
+
+/-- non-vacuity (schema `Sc`): the fresh tree `[x = "1", n { t = "3" }]` — `x` selects case `a`, whose defaults `u` and `da` are
+created on the top level (2 events, change set of 2 nodes); below `n` nothing happens (`t` selects the non-default case `s`) -/
+example :
+    let t : List DNode := freshL Sc [.term 2 {} [] [49], .inner 11 {} [] [.term 16 {} [] [51]]]
+    freshExplL t = true ∧ topOnly Xc {} t = true ∧ (validate Xc {} t).errs = [] ∧ (validate Xc {} t).evs.map (·.node.sid) = [5, 8] := by
+  refine ⟨by decide +kernel, by decide +kernel, by decide +kernel, by decide +kernel⟩
+
 /-! ## not proved
 
 -- OPEN: `valdiff_exact_partial` on ALL inputs outside `valdiffExcluded` (∀ X o fx t, X.q = Quirks.fixed → valdiffExcluded X o t = false →
--- validateDiff X o t ≠ none → valdiffExact X o fx t = true).  It needs the correctness of `lyd_diff_merge_all` for the operation
--- pairs validation produces (none/create/delete chains merged in event order, applied in schema order: the commutation of
--- independent edits), which component `diff` has only cell by cell (Props/C13Merge.lean).  Evaluated in the model on every
+-- validateDiff X o t ≠ none → valdiffExact X o fx t = true).  Proved: creations on the top level of fresh data, one level of
+-- `lyd_new_implicit`, unchanged inputs.  Missing: (1) changes BELOW the top level — `lyd_val_diff_add` copies the parents
+-- (`none` chains), `lyd_diff_merge_r` merges chain into chain (none/none, none/create) and `lyd_diff_apply_r` walks them; (2)
+-- deletions (`lyd_validate_new`) and the pairs delete/create, create/delete of one validation; (3) user-ordered nodes (anchors).  Evaluated in the model on every
 -- generated input of every run (`valdiff-model:exact/hyp` must be all of `valdiff-hyp:satisfied`) and compared with libyang.
 -/
 
